@@ -291,7 +291,7 @@ func (g *connGen) Close() error {
 func RunC1(rc *RunCtx, sc *C1) *C1Outcome {
 	s := NewSim(rc.Sched)
 	s.Tracing = rc.Tracing
-	if sc.Marathon > 0 {
+	if sc.Marathon > 0 || rc.longRun {
 		s.MaxSteps = 2000000
 	}
 	out := &C1Outcome{}
@@ -842,3 +842,107 @@ var valueHooksTarget *recHooks
 func (valueHooks) BeforeWrite(b []byte)                   { valueHooksTarget.BeforeWrite(b) }
 func (valueHooks) AfterEachRead(b []byte, n int, e error) { valueHooksTarget.AfterEachRead(b, n, e) }
 func (valueHooks) BeforeParse(b []byte)                   { valueHooksTarget.BeforeParse(b) }
+
+// ---- long histories: many healthy exchanges on one client before the call under test ----
+
+// historyLen draws how many exchanges precede the call under test: around the places where 8-bit counters wrap, enough
+// long replies to fill a few KiB of whatever a client may keep, or a few hundred of any size.
+func historyLen(t *Tape) int {
+	switch t.Choose(4) {
+	case 0:
+		return []int{255, 254, 256, 257, 511}[t.Choose(5)]
+	case 1:
+		return 200 + t.Choose(200)
+	}
+	return 16 + t.Choose(30)
+}
+
+// genHistory draws n healthy exchanges for sc's client (each reply is delivered whole and at once unless slow is set,
+// then every reply takes a few milliseconds to come). Function 23 is left out: the library's expected length for it is
+// a known finding of C07 and every such call would end in a timeout. The exchanges share sc's client configuration.
+func genHistory(rc *RunCtx, sc *C1, n int, slow bool) []*C1 { return genHistoryFrag(rc, sc, n, slow, false) }
+
+// genHistoryFrag: with frag set the replies of the history arrive cut into reads like any reply under test (for
+// properties that do not depend on those exchanges succeeding).
+func genHistoryFrag(rc *RunCtx, sc *C1, n int, slow, frag bool) []*C1 {
+	t := rc.Scen
+	var hist []*C1
+	for len(hist) < n {
+		var h *C1
+		for try := 0; try < 6; try++ {
+			c, ok := genC1BaseKind(t, false, int(sc.Kind))
+			if ok && c.Req.FC != 23 {
+				h = c
+				break
+			}
+		}
+		if h == nil {
+			break
+		}
+		h.Chunks = []Chunk{{N: len(h.Reply)}}
+		if slow {
+			h.Chunks[0].Gap = time.Duration(2+t.Choose(9)) * time.Millisecond
+		}
+		if frag {
+			h.Chunks = genChunks(t, len(h.Reply))
+			if 2*totalGap(h.Chunks)+50*time.Millisecond > sc.ReadTimeout {
+				for i := range h.Chunks {
+					h.Chunks[i].Gap = 0 // one client, one read timeout: this reply must fit into it
+				}
+			}
+		}
+		h.Full = h.Reply
+		h.ReadTimeout, h.WriteTimeout, h.PortTimeout, h.TOStyle, h.Flusher = sc.ReadTimeout, sc.WriteTimeout, sc.PortTimeout, sc.TOStyle, sc.Flusher
+		h.Hooks, h.ValueHooks, h.DeadlinePort, h.NilHooksOption = sc.Hooks, sc.ValueHooks, sc.DeadlinePort, sc.NilHooksOption
+		h.ObserveParse, h.ConfOneFunc, h.WrappedTimeouts = sc.ObserveParse, sc.ConfOneFunc, sc.WrappedTimeouts
+		hist = append(hist, h)
+	}
+	return hist
+}
+
+// RunC1Long is RunC1 with the step budget of a long history.
+func RunC1Long(rc *RunCtx, sc *C1) *C1Outcome {
+	rc.longRun = true
+	defer func() { rc.longRun = false }()
+	return RunC1(rc, sc)
+}
+
+// chainCalls links the calls so that RunC1(calls[0]) makes them one after another on one client.
+func chainCalls(calls []*C1) *C1 {
+	for i := 0; i+1 < len(calls); i++ {
+		calls[i].Then = calls[i+1]
+	}
+	return calls[0]
+}
+
+// outcomeOf returns the outcome of the i-th call of a chain run (nil when the run did not get that far).
+func outcomeOf(first *C1Outcome, i int) *C1Outcome {
+	if i == 0 {
+		return first
+	}
+	if i-1 < len(first.Next) {
+		return first.Next[i-1]
+	}
+	return nil
+}
+
+// historyTrouble describes the first exchange of the history that did not bring its reply ("" when all did), and
+// whether a response handed out by one of them changed afterwards.
+func historyTrouble(hist []*C1, first *C1Outcome) (failed string, changed string) {
+	for i, h := range hist {
+		o := outcomeOf(first, i)
+		if o == nil || !o.Returned {
+			return fmt.Sprintf("exchange %d of the history did not return", i+1), ""
+		}
+		if o.Err != nil || isNilResponse(o.Resp) {
+			return fmt.Sprintf("exchange %d of the history (%s, reply %x delivered whole): err=%v", i+1, h.Req, trunc(h.Reply, 24), o.Err), ""
+		}
+	}
+	for i, h := range hist {
+		o := outcomeOf(first, i)
+		if got := o.Resp.Bytes(); !bytes.Equal(got, h.Reply) && len(o.Consumed) == len(h.Reply) && changed == "" {
+			changed = fmt.Sprintf("the response of exchange %d of %d re-encodes to %x at the end of the run; the reply was %x", i+1, len(hist), trunc(got, 40), trunc(h.Reply, 40))
+		}
+	}
+	return "", changed
+}
